@@ -24,7 +24,7 @@ def gen_cases(tier, seed, salt):
         st = structs[int(sub.integers(len(structs)))]
         spec = S.gen_spec(sub, structure=st, fams=["weibull", "lognormal", "lnnf", "expweib", "gengamma", "normal"], allow_hostile=True)
         alpha = float(10 ** sub.uniform(-6, math.log10(0.3)))
-        mode = str(sub.choice(["explicit", "explicit", "explicit", "too-small", "default-limits" if not three else "explicit", "bimodal" if not three else "explicit", "near-miss" if not three else "too-small", "near-miss" if not three else "explicit", "modes-side-by-side" if not three else "explicit", "four-modes" if not three else "explicit", "tiny-second-region" if not three else "explicit"]))
+        mode = str(sub.choice(["explicit", "explicit", "explicit", "too-small", "default-limits" if not three else "explicit", "bimodal" if not three else "explicit", "near-miss" if not three else "too-small", "near-miss" if not three else "explicit", "modes-side-by-side" if not three else "explicit", "four-modes" if not three else "explicit", "tiny-second-region" if not three else "explicit", "default-limits-mass-below-zero" if not three else "explicit", "warning-sequence" if not three else "too-small"]))
         if mode == "near-miss":
             # the grid misses (or exceeds) 1-alpha by a small multiple of alpha: the warning rule at its edge
             alpha = float(10 ** sub.uniform(-6, -2.5))
@@ -120,6 +120,12 @@ def run(case, ctx, which):
     if case["mode"] in ("modes-side-by-side", "four-modes"):
         spec = build_multimodal(rng, "four" if case["mode"] == "four-modes" else "two")
         alpha = float(rng.uniform(0.03, 0.2))
+    if case["mode"] == "default-limits-mass-below-zero":
+        # the documented default grid starts at 0: a variable with mass below zero cannot be captured - a warning is due
+        spec = {"dims": [{"fam": "normal", "params": {"mu": float(rng.uniform(0.5, 2.5)), "sigma": 1.0}}, {"fam": "normal", "cond": 0, "params": {"mu": {"shape": "linear2", "coef": [3.0, 0.5]}, "sigma": float(rng.uniform(0.8, 1.5))}}]}
+        alpha = float(rng.uniform(0.005, 0.1))
+    if case["mode"] == "warning-sequence":
+        return run_sequence(case, ctx, which, rng)
     if case["mode"] == "tiny-second-region":
         # unequal modes; alpha is chosen (second pass, below) so that the weaker mode contributes exactly 1, 2 or 3 cells
         spec = build_multimodal(rng, "two")
@@ -160,7 +166,7 @@ def run(case, ctx, which):
         kw["limits"] = lims
         kw["deltas"] = [d0, float(hi1) / n1]
         ctx.cls("shortfall/alpha", u)
-    elif case["mode"] != "default-limits":
+    elif case["mode"] not in ("default-limits", "default-limits-mass-below-zero"):
         if case["mode"] in ("modes-side-by-side", "four-modes", "tiny-second-region"):
             lims = [(-3.0, 14.0), (-3.0, 17.0)]
         elif case["mode"] == "bimodal":
@@ -282,6 +288,54 @@ def run(case, ctx, which):
                 _c02(ctx, spec2, a2, con2, o2, o2["cell_prob"], centres2, deltas_used, warned2, info2)
             else:
                 _c15(ctx, con2, o2, centres2, warned2, info2, d)
+
+
+def run_sequence(case, ctx, which, rng):
+    """Several contours inside ONE warnings context (a script with a single `simplefilter("always")`): a contour with the
+    default grid first, then one whose explicit grid is too small - the warning of the second must still arrive."""
+    from virocon import HighestDensityContour
+
+    spec = S.gen_spec(np.random.default_rng(case["sub"]), structure=[None, 0], fams=["weibull", "lognormal", "expweib"], allow_hostile=False)
+    model = S.build_virocon(spec)
+    ref = S.RefModel(spec)
+    ctx.cls("n_dim", 2)
+    ctx.cls("mode", case["mode"])
+    ctx.cls("structure", ref.cond)
+    ctx.sig = f"{S.spec_signature(spec)}|sequence|{case['sub']}"
+    alpha = float(rng.uniform(0.01, 0.1))
+    lims = []
+    for i in range(2):
+        lo, hi = ref.dim_range(i, eps=1e-6)
+        lims.append((0.0, float(lo + (hi - lo) * rng.uniform(0.25, 0.5))))
+    deltas = [(hi - lo) / 40 for lo, hi in lims]
+    hdcmon.reset()
+    hdcmon.JUDGE_SORTER[0] = which == "C15"
+    with warnings.catch_warnings(record=True) as rec:
+        warnings.simplefilter("always")
+        try:
+            HighestDensityContour(model, alpha)  # default limits and deltas
+            n_before = len(rec)
+            hdcmon.reset()
+            hdcmon.JUDGE_SORTER[0] = which == "C15"
+            con = HighestDensityContour(model, alpha, limits=lims, deltas=deltas)
+        except IndexError:
+            ctx.count("hdc.index-error-coarse-grid")
+            return
+        second = list(rec)[n_before:]
+    warned = any(issubclass(w.category, RuntimeWarning) and "1-alpha could not be reached" in str(w.message) for w in second)
+    obs = hdcmon.OBS.get("cumsum", [])
+    if not obs:
+        ctx.inconcl("cumsum_biggest_until was not observed (sequence)")
+        return
+    o = obs[-1]
+    centres = [np.asarray(c_, float) for c_ in con.cell_center_coordinates]
+    info = {"alpha": alpha, "grid": [int(c_.size) for c_ in centres], "mode": "second contour in one warnings context, after a default-grid contour", "spec": spec}
+    ctx.nontrivial = True
+    ctx.sample = {"signature": S.spec_signature(spec), "alpha": alpha, "mode": case["mode"], "warned": warned}
+    if which == "C02":
+        _c02(ctx, spec, alpha, con, o, o["cell_prob"], centres, [float(x) for x in deltas], warned, info)
+    else:
+        _c15(ctx, con, o, centres, warned, info, 2)
 
 
 # ----------------------------------------------------------------------
